@@ -145,10 +145,15 @@ Fixpoint find_map {A B} (g : A -> option B) (l : list A) : option B :=
   | x :: r => match g x with Some y => Some y | None => find_map g r end
   end.
 
-(* Store::head: newest index entry under the prefix whose frame still exists *)
-Definition head (s : store) (t : bytes) (c : N) : option frame :=
+(* Store::head: newest index entry under the prefix whose frame still exists.  No stored topic
+   contains a NUL byte (append and import refuse it), and a NUL inside the QUERIED topic would make
+   the prefix ctx|topic|0 match keys of a shorter topic whose id starts with a zero byte: the fixed
+   code answers None for such a query; head_unguarded is the pinned code *)
+Definition head_unguarded (s : store) (t : bytes) (c : N) : option frame :=
   find_map (fun e => get s (of_be (last16 (fst e))))
            (rev (kv_prefix (tprefix c t) (s_itopic s))).
+Definition head (s : store) (t : bytes) (c : N) : option frame :=
+  if has_nul t then None else head_unguarded s t c.
 
 (* Store::iter_frames *)
 Definition iter_frames (s : store) (c : option N) (last : option N) : list frame :=
